@@ -343,6 +343,9 @@ class SmartServerRequestProtocolOne(SmartProtocolBase):
                     (b"error", str(protocol_error).encode("utf-8"))
                 )
                 self._send_response(failure)
+                # Any bytes after the request line belong to the next request.
+                self.unused_data += self.in_buffer
+                self.in_buffer = b""
                 return
             except Exception as exception:
                 # everything else: pass to client, flush, and quit
